@@ -42,7 +42,15 @@ def make_skeleton(spec):
     # the element as the right-hand side of an assignment: to an unrelated variable, to a variable spelled like a generated temporary,
     # to a variable one of whose namesakes (another binding) is the child
     wrap = {None: 'const _0 = %s;', 'assign': 'const _0 = (v4 = %s);', 'assign-tempname': 'let _slot = 0;\nconst _0 = (_slot = %s);',
-            'assign-shadow': 'const _0 = (v1 = ((v1) => %s)(v2));'}[spec.get('wrap')]
+            'assign-shadow': 'const _0 = (v1 = ((v1) => %s)(v2));',
+            # enclosing statements that run their body more than once per activation, and other nested statement lists
+            'for-of': 'for (const v5 of [v1, v2]) {{ const _0 = %s; f1(_0); }}', 'while': 'while (f1()) {{ const _0 = %s; f1(_0); }}',
+            'for': 'for (let i = 0; i < 2; i++) {{ const _0 = %s; f1(_0); }}', 'do': 'do {{ const _0 = %s; f1(_0); }} while (f1());',
+            'for-in': 'for (const k in o1) {{ const _0 = %s; f1(_0); }}', 'for-of-bare': 'for (const v5 of [v1, v2]) var _0 = %s;',
+            'switch': 'switch (v1) {{ case 1: const _0 = %s; f1(_0); }}', 'fn': 'function g() {{ const _0 = %s; return _0; }}',
+            'arrow-expr': 'const _0 = (() => %s)();', 'arrow-loop': 'const g = () => {{ for (;;) {{ const _0 = %s; return _0; }} }};',
+            'if-in-loop': 'for (const v5 of [v1]) {{ if (v5) {{ const _0 = %s; f1(_0); }} }}', 'try-in-loop': 'while (v1) {{ try {{ const _0 = %s; f1(_0); }} finally {{ f1(); }} }}',
+            'labeled': 'outer: for (;;) {{ const _0 = %s; if (_0) break outer; }}'}[spec.get('wrap')]
     src = PRELUDE + wrap % jsx + '\n'
     opts = {'enable_object_slots': 'sym', 'optimize': 'sym'}
     opts.update(spec.get('opts', {}))
@@ -120,8 +128,90 @@ def oracle(env):
         raise Unsupported('oracle gap: %s' % g)
     shape = _shape(env, jel.get('children'))
     if comp:
-        return [Obligation('component children are delivered as the slots the source denotes', r, {'host': 'component', 'shape': shape})]
+        return [Obligation('component children are delivered as the slots the source denotes', r, {'host': 'component', 'shape': shape})] + temp_obligations(env, mv)
     return [Obligation('children are exactly the written children in order (JSX text rule, empties dropped, spreads spliced, null when none)', r, {'host': 'element', 'shape': shape})]
+
+
+LOOP_TYS = ('ForStmt', 'ForInStmt', 'ForOfStmt', 'WhileStmt', 'DoWhileStmt')
+FN_TYS = ('Function', 'ArrowExpr', 'Constructor', 'GetterProp', 'SetterProp', 'StaticBlock')
+FIELD_TYS = ('ClassProp', 'PrivateProp')
+
+
+def _path_to(root, target):
+    """nodes from root down to target (by identity), or None"""
+    stack = []
+
+    def go(v):
+        if v is target:
+            stack.append(v); return True
+        if isinstance(v, Adt):
+            stack.append(v)
+            for f in v.fields:
+                if go(f):
+                    return True
+            stack.pop()
+        elif isinstance(v, list):
+            for f in v:
+                if go(f):
+                    return True
+        elif isinstance(v, Ref):
+            try:
+                inner = v.get()
+            except Exception:
+                return False
+            return go(inner)
+        return False
+    return stack if go(root) else None
+
+
+def temp_obligations(env, mv):
+    """the temporary that carries a call child's value into the lazily called default slot belongs to one evaluation of the element:
+    between its declaration's scope and its use there is no loop, function or class-field boundary (else a later evaluation
+    overwrites what an earlier vnode's slot still has to read)"""
+    prog = env.post
+    uses = []
+
+    def f(v, p):
+        if isinstance(v, Adt) and v.ty == 'CondExpr':
+            test = denote.call_view(v.get('test'))
+            if test is None or test[0] is None or len(test[1]) != 1 or not children.helper_is_slot_test(mv, test[0]):
+                return
+            arg = denote.E(test[1][0][1])
+            if denote.is_expr(arg, 'Assign'):
+                t = children._assign_target_ident(arg.fields[0].get('left'))
+                if t is not None:
+                    uses.append((v, t))
+    astio.walk(prog, f)
+    obs = []
+    for use, t in uses:
+        decls = []
+
+        def g(v, p):
+            if isinstance(v, Adt) and v.ty == 'VarDecl':
+                for d in v.get('decls'):
+                    nm = deref(d.get('name'))
+                    if nm.variant == 'Ident' and children._same_ident(nm.fields[0].get('id'), t):
+                        decls.append(v)
+        astio.walk(prog, g)
+        if len(decls) != 1:
+            continue            # (undeclared / doubly declared: C06)
+        dp = _path_to(prog, decls[0]); up = _path_to(prog, use)
+        if dp is None or up is None:
+            continue
+        kind = decls[0].get('kind').variant
+        chain = [n for n in dp[:-1] if isinstance(n, Adt)]
+        if kind == 'Var':
+            scope = [n for n in chain if n.ty in FN_TYS + ('Module', 'Script')][-1]
+        else:
+            scope = [n for n in chain if n.ty in ('BlockStmt', 'Module', 'Script', 'SwitchStmt') or n.ty in FN_TYS][-1]
+        ids = [id(n) for n in up]
+        if id(scope) not in ids:
+            continue            # (not in scope: C06)
+        below = [n for n in up[ids.index(id(scope)) + 1:] if isinstance(n, Adt)]
+        crossing = [('loop' if n.ty in LOOP_TYS else 'function' if n.ty in FN_TYS else 'class-field') for n in below if n.ty in LOOP_TYS + FN_TYS + FIELD_TYS]
+        obs.append(Obligation('the temporary holding a call child belongs to one evaluation of the element (no loop / function between its scope and its use)',
+                              not crossing, {'crossing': crossing[:2], 'declared_with': kind.lower(), 'temp': t.get('sym')}))
+    return obs
 
 
 def _shape(env, kids):
@@ -196,6 +286,10 @@ def jobs(tier):
         for k in ('id', 'call', 'un', 'mem', 'arrow'):
             for w in ('assign', 'assign-tempname', 'assign-shadow'):
                 extra.append({'module': MOD, 'spec': {'host': h, 'kids': [k], 'wrap': w}})
+    for h in (('Foo',) if tier == 'quick' else ('Foo', 'C1', 'mem')):
+        for k in (('call', 'id', 'mem') if tier == 'quick' else ('call', 'id', 'mem', 'optcall', 'spcall', 'el', 'arrow')):
+            for w in ('for-of', 'while', 'for', 'do', 'for-in', 'for-of-bare', 'switch', 'fn', 'arrow-expr', 'arrow-loop', 'if-in-loop', 'try-in-loop', 'labeled'):
+                extra.append({'module': MOD, 'spec': {'host': h, 'kids': [k], 'wrap': w}})
     return extra + _jobs(tier)
 
 
@@ -208,7 +302,7 @@ def classify(v, detail):
     if v['kind'] == 'panic':
         return 'panic'
     import re
-    m = re.search(r'const _0 = <([^\s>]*)([^>]*)>(.*)</', v['source'], re.S)
+    m = re.search(r'(?:const|var) _0 = \(*(?:\(\) => )?<([^\s>]*)([^>]*)>(.*)</', v['source'], re.S)
     host = m.group(1) if m else '?'
     kids = m.group(3) if m else ''
     shape = 'none' if not kids.strip() else 'fn' if re.fullmatch(r'\{\s*(\(\)\s*=>|function).*\}', kids.strip(), re.S) else 'obj' if kids.strip().startswith('{{') else \
@@ -217,6 +311,10 @@ def classify(v, detail):
     info = (detail or {}).get('info') or v.get('info') or {}
     if info.get('shape'):
         shape = info['shape']
+    if v['obligation'].startswith('the temporary holding a call child'):
+        ctxm = re.search(r'\n(for|while|do|switch|function|outer:|const g)\b', v['source'])
+        bare = ' without a block' if re.search(r'\) var _0 = ', v['source']) else ''
+        return 'temporary of a call child shared across %s (declared with %s)%s' % ('/'.join(info.get('crossing') or ['?']), info.get('declared_with'), bare)
     return '%s | child=%s | %s' % (v['obligation'][:40], shape, vs)
 
 
@@ -227,7 +325,7 @@ def main(argv):
                   'v-slots': sorted(VSLOTS), 'options': 'enableObjectSlots, optimize symbolic', 'child_kinds': sorted(KIDS)}
     rep.assumptions = ['embedded expressions are JSX-free opaque tokens (nested elements are separate child kinds)',
                        'runtime value kinds of the slot test: function, plain object, vnode, array, string, number, null, undefined',
-                       'where the temporary for a call child is declared relative to its use is C06 (not applicable); here only that it is declared']
+                       'that the temporary for a call child is bound and initialised is C06; here that it is declared and belongs to one evaluation of the element (enclosing loops, functions)']
     res = common.run_jobs('mirsym.checks.elements', 'run_family_job', js)
     raw = []
     for r in res:
